@@ -310,6 +310,7 @@ struct PropC19
     SIM_COUNT_N("fault.preempted_while_holding_mutex.fired", st.preemptedHoldingLock);
     SIM_COUNT_N("fault.contended_lock_blocked_thread.fired", st.contendedLocks);
     SIM_COUNT_N("fault.preemption_at_plain_access.fired", st.plainYields);
+    SIM_COUNT_N("fault.timed_lock_deadline_passed.fired", st.timedLockTimeouts);
     if (p.sched.yieldShift >= 0) {SIM_COUNT("fault.preemption_at_plain_access.configured");}
     SIM_COUNT("fault.preemption.configured"); SIM_COUNT("fault.preempted_while_holding_mutex.configured"); SIM_COUNT("fault.contended_lock_blocked_thread.configured");
     SIM_COUNT_N("scheduler_decisions", st.decisions); SIM_COUNT_N("context_switches", st.switches);
@@ -503,7 +504,7 @@ struct PropC19
       std::vector<size_t> sw;
       for (size_t k = 0; k < p.sched.trace.size(); ++k) {if (p.sched.trace[k] > 0) {sw.push_back(k);}}
       if (!sw.empty() && sw.back() + 1 < p.sched.trace.size()) {Plan q = p; q.sched.trace.resize(sw.back() + 1); out.push_back(q);}
-      removalCandidates(sw, [&](std::vector<size_t> keep) {
+      if ((uint64_t)sw.size() * p.sched.trace.size() <= 200000000ULL) removalCandidates(sw, [&](std::vector<size_t> keep) {
           Plan q = p; std::fill(q.sched.trace.begin(), q.sched.trace.end(), -1);
           for (size_t k : keep) {q.sched.trace[k] = p.sched.trace[k];}
           out.push_back(q);
@@ -556,7 +557,9 @@ struct PropC19
     if (buf.empty() || buf.back() != 'E') {std::printf("note: schedule capture failed (%zu bytes)\n", buf.size()); return false;}
     std::vector<int> tr; const char * s = buf.c_str();
     while (*s && *s != 'E') {char * e; long v = strtol(s, &e, 10); if (e == s) {break;} tr.push_back((int)v); s = e; while (*s == ' ') {++s;}}
-    if (tr.size() > 2000000) {return false;}
+    // the schedule minimiser copies the whole trace per candidate: keep explicit schedules to a size it can afford
+    size_t nsw = 0; for (int t : tr) {if (t > 0) {++nsw;}}
+    if (tr.size() > 400000 || (uint64_t)nsw * tr.size() > 200000000ULL) {return false;}
     p.sched.useTrace = true; p.sched.trace = tr;
     return true;
   }
